@@ -66,10 +66,22 @@ def apply_setup(s: Session, ev) -> None:
         n = s.gateway.nodes.get(ev[1])
         if n is not None:
             n.sleeping = True
+    elif ev[0] == "many":
+        # a sleeping node with many parked commands: 12 set keys and 12 internal types
+        for c in range(3):
+            s.line(f"{ev[1]};{c};0;0;3;")
+        for c in range(3):
+            for t in range(4):
+                s.send(Message(ev[1], c, 1, 0, t, "m"))
+        for t in range(5, 17):
+            s.send(Message(ev[1], 255, 3, 0, t, "m"))
 
 
 def build(version, hist) -> Session:
-    s = Session(version)
+    from aiomysensors.gateway import Config
+
+    # a persistence file is configured (never opened here: any file access would fail loudly under /vfs/)
+    s = Session(version, Config(persistence_file="/vfs/never-opened.json"))
     for ev in hist:
         apply_setup(s, ev)
     return s
@@ -89,7 +101,12 @@ def states(version, depth: int) -> list:
                     seen[k] = h2
                     nxt.append(h2)
         frontier = nxt
-    return list(seen.values())
+    out = list(seen.values())
+    # a capacity state on top: node 1 known, sleeping, with two dozen parked commands
+    wt = R.wake_type(version) if version else None
+    base = [["line", "1;255;0;0;17;2.0"], ["line", f"1;255;3;0;{wt};0"] if wt is not None else ["sleepflag", 1], ["many", 1]]
+    out.append(base)
+    return out
 
 
 def check_one(version, hist, line) -> list:
@@ -115,6 +132,8 @@ def check_one(version, hist, line) -> list:
         c_ = fl[1] if R.PLAIN_INT.match(fl[1]) and 0 <= int(fl[1]) < 255 else "3"
         follow = [f"{n_};{c_};1;0;2;on", f"{n_};{c_};2;0;2;", f"{n_};{c_};1;0;0;1.5", f"{n_};{c_};1;0;99;z",
                   f"{n_};{c_};0;0;3;d", f"{n_};255;3;0;0;50", f"{n_};255;3;0;11;s", f"{n_};255;4;0;0;fw"]
+        if n_ == "0":
+            follow += ["0;255;3;0;2;2.2", "0;255;3;0;2;2.1.1"]  # the gateway then reports its version
         for fline in follow:
             o = s.line(fline)
             if o.kind == "raise" and not isinstance(o.exc, AIOMySensorsError):
